@@ -255,6 +255,33 @@ def run(ck):
                             ratios(pops[lo:], ens[lo:], Teff, what + ":" + basis, inp, direct=(inside or (cond == "thermal" and not inside)))
                         if lo > 0 and numpy.abs(pops[:lo]).max() > 0:
                             ck.fail("ground:%s" % what, "excited-state equilibrium has ground-state population", inp)
+        # ---- the same states requested inside the basis context of some OTHER operator, real symmetric and complex Hermitian --------------
+        from quantarhei.qm.hilbertspace.operators import SelfAdjointOperator as _SAO
+        for okind in ("real symmetric", "complex Hermitian"):
+            Ntot_ = int(H.dim)
+            am_ = numpy.array([[rng.randint(-4, 4) / 4.0 + (1j * rng.randint(-4, 4) / 4.0 if okind.startswith("complex") else 0.0) for _ in range(Ntot_)] for _ in range(Ntot_)])
+            am_ = (am_ + am_.conj().T) / 2.0 + numpy.diag(numpy.arange(Ntot_) * 0.5)
+            for (cond_, limit_, T_), d_out in list(outside_state.items()):
+                if T_ is None or not (T_ >= 77.0) or T_ != max(t_ for (_c, _l, t_) in outside_state if t_ is not None):
+                    continue
+                inpo = {"sites": n, "energies_cm": energies, "condition": cond_, "limit": limit_, "temperature": T_,
+                        "requested_inside_eigenbasis_of": "another operator (%s)" % okind}
+                ck.case((s, T_, cond_, limit_, okind), nontrivial=True, condition=cond_, limit=limit_, lowT=False, inside=True)
+                try:
+                    Ao_ = _SAO(data=am_.copy())
+                    with eigenbasis_of(Ao_):
+                        rho_o = agg.get_DensityMatrix(condition_type=cond_, relaxation_theory_limit=limit_, temperature=T_)
+                    d_o = numpy.array(rho_o.data).copy()
+                    if check_state(d_o, "%s:%s:other-context" % (cond_, limit_), inpo):
+                        dvo = float(numpy.abs(d_o - d_out).max())
+                        if dvo > 1e-9:
+                            ck.fail("basis:%s:%s:other-context" % (cond_, limit_), "the state requested inside the basis context of another operator (%s) is not the same "
+                                    "physical state as the one requested outside any context" % okind, inpo, dvo)
+                    dh_ = float(numpy.abs(numpy.array(agg.get_Hamiltonian()._data) - Hs).max())
+                    if dh_ > 1e-9 * max(1.0, float(numpy.abs(Hs).max())):
+                        ck.fail("basis:hamiltonian-after-context:%s" % okind.split()[0], "the aggregate's Hamiltonian is not back in its site representation after the request", inpo, dh_)
+                except Exception as e:
+                    ck.fail("raises:%s:%s:other-context" % (cond_, limit_), "request inside the context of another operator raised %r" % (e,), inpo)
     # ---- the equilibrium state of the open-system interface (temperature of the bath), shifted ground-state energies --------
     ta_b = TimeAxis(0.0, 100, 1.0)
     for E0 in (0.0, 500.0, 10000.0, -200.0):
